@@ -156,9 +156,14 @@ def run_one(tape, tier, prop):
     res.sample = {"ruleset": worlds.spec_summary(spec)}
     import lib_guesser.pcfg_grammar as pg
     import lib_guesser.honeyword_session as hs
-    ref = RefRuleset(rdir)
+    has_m = any(b[0] == "M" for b in spec["base"])
+    only_m = all(b[0] == "M" for b in spec["base"])
+    skip_brute = has_m and not only_m and t.chance(1, 2)
+    skip_case = t.chance(1, 4)
+    res.sample["flags"] = {"skip_brute": skip_brute, "skip_case": skip_case}
+    ref = RefRuleset(rdir, skip_brute=skip_brute, skip_case=skip_case)
     with guesser.streams():
-        pcfg = guesser.load(rdir)
+        pcfg = guesser.load(rdir, skip_brute=skip_brute, skip_case=skip_case)
     saved = (pg.random, hs.random)
     problem = None
     try:
@@ -242,6 +247,7 @@ def run_one(tape, tier, prop):
             for idx in itertools.product(*[range(len(ref.vars[r])) for r in b["replacements"]]):
                 lang.update(ref.expand(tuple(zip(b["replacements"], idx))))
         only_m = all("M" in b["replacements"] for b in ref.base)
+        flag_args = (["--skip_brute"] if skip_brute else []) + (["--all_lower"] if skip_case else [])
         if not only_m:
             for mode in ("honeywords", "random_walk"):
                 N = t.between(1, 12)
@@ -264,7 +270,7 @@ def run_one(tape, tier, prop):
                         break
                     cumf += Fraction(b["prob"])
                 rng = ScriptedRandom(floats=floats, choices=[t.draw(5) for _ in range(400)], default_float=dflt)
-                text, seam, r = c09.run_proc(["-r", "R", "-s", "S", "--mode", mode, "--limit", str(N)], mode_rng=rng)
+                text, seam, r = c09.run_proc(["-r", "R", "-s", "S", "--mode", mode, "--limit", str(N)] + flag_args, mode_rng=rng)
                 res.faults["scripted_draws_" + ["top", "zero", "mixed_extremes", "uniform"][style]] += 1
                 if r.exc:
                     res.violate("C16", "run_raised_before_N_words", {"mode": mode, "limit": N, "written": len(seam),
@@ -283,7 +289,7 @@ def run_one(tape, tier, prop):
             if not res.violations:
                 outs = []
                 for _ in range(2):
-                    text, seam, r = c09.run_proc(["-r", "R", "-s", "S", "--mode", "random_walk", "--limit", "15"])
+                    text, seam, r = c09.run_proc(["-r", "R", "-s", "S", "--mode", "random_walk", "--limit", "15"] + flag_args)
                     outs.append(text if not r.exc else "EXC:" + r.exc[-200:])
                 if outs[0] != outs[1]:
                     res.violate("C16", "random_walk_not_reproducible", {"first": outs[0][:80], "second": outs[1][:80]})
@@ -291,8 +297,8 @@ def run_one(tape, tier, prop):
                     res.violate("C16", "run_raised_before_N_words", {"mode": "random_walk", "exception": outs[0]})
     nstruct = len(ref.base)
     multi = any(len(g) >= 2 for g in ref.vars.values())
-    res.nontrivial = digest_of([spec["base"], spec["vars"]]) if (nstruct >= 2 and multi) else None
-    res.shape = (nstruct, sum(1 for b in ref.base if "M" in b["replacements"]))
+    res.nontrivial = digest_of([spec["base"], spec["vars"], skip_brute, skip_case]) if (nstruct >= 2 and multi) else None
+    res.shape = (nstruct, sum(1 for b in ref.base if "M" in b["replacements"]), skip_brute, skip_case)
     res.digest = digest_of([spec["base"], spec["vars"], [v.as_dict() for v in res.violations]])
     return res
 
